@@ -469,6 +469,12 @@ func (tr *Tr) subRefOfLoc(l Loc) string {
 		tr.sc.fact(fmt.Sprintf("(forall ((o Int)) (! (and (= (%s (%s o)) o) (=> (> o 0) (> (%s o) 0))) :pattern ((%s o))))", inv, fn, fn, fn))
 	}
 	t := "(" + fn + " " + l.Ref + ")"
+	if g, ok := tr.refGap[l.Ref]; ok && tr.specMode == 0 {
+		if _, done := tr.refGap[t]; !done {
+			tr.refGap[t] = g
+			tr.sc.fact(fmt.Sprintf("(and (<= %s %s) (< %s %s))", g[0], t, t, g[1]))
+		}
+	}
 	// an embedded sub-object is allocated together with its owner: for every allocation counter value that frames
 	// refer to, "owner allocated before" is equivalent to "sub-object allocated before" (instantiated per known counter)
 	if !strings.Contains(l.Ref, "?") {
